@@ -351,3 +351,30 @@ F("D37d", "C19", N, "    r, s = r * q + s, r\n", "    r, s = r * q - s, r\n", "R
 F("D37e", "C19", N, "    a, b = b, rem\n    r, s = r * q + s, r\n    t, u = t * q + u, t\n    res.append((q, r, t))", "    res.append((q, r, t))\n    a, b = b, rem\n    r, s = r * q + s, r\n    t, u = t * q + u, t", "R-C19-CF", "convergent appended before the update")
 T("D37f", "C19", N, "    t = min(k, 2 * t)\n    a = gmpy.f_mod_2exp(a * (2 - a * n), t)", "    t = min(k, 2 * t)\n    a = gmpy.f_mod_2exp(2 * a - a * a * n, t)", "Newton step expanded")
 T("D37g", "C19", N, "    t = min(k, 2 * t - 2)\n", "    t = min(k, 2 * t - 3)\n", "slower exponent growth is still sound")
+
+# ---------------------------------------------------------------------------------- C06
+RO = L + "roca.py"
+DS = L + "data/default_storage.py"
+F("D01", "C06", RS, "      weak = gmpy.bit_length(n) < 2048\n", "      weak = gmpy.bit_length(n) <= 2048\n", "R-C06-PRED", "size check flags 2048-bit keys")
+F("D02", "C06", RS, "      if e != 65537:\n", "      if e != 65539:\n", "R-C06-PRED", "exponent constant")
+F("D02b", "C06", RS, "      e = gmpy.mpz(util.Bytes2Int(key.rsa_info.e))\n", "      e = gmpy.mpz(util.Bytes2Int(key.rsa_info.n))\n", "R-C06-PRED", "exponent check reads the modulus")
+F("D03", "C06", RO, "            149, 151, 157, 163, 167, 173)\n  F4", "            149, 151, 157, 163, 167)\n  F4", "R-C06-TABLES", "ROCA prime 173 dropped")
+F("D03b", "C06", RO, "            223, 227, 229)", "            223, 227, 233)", "R-C06-TABLES", "variant prime 229 -> 233")
+F("D04", "C06", RO, "    for unused_exponent in range(1, n):", "    for unused_exponent in range(2, n):", "R-C06-DLOG-LOOP", "one group element never tested")
+F("D04b", "C06", RO, "      if accumulator == value:\n        return True\n      accumulator = (accumulator * b) % n", "      accumulator = (accumulator * b) % n\n      if accumulator == value:\n        return True", "R-C06-DLOG-LOOP", "multiply before compare (value 1 missed)")
+F("D05", "C06", RS, "hexdigest()[20:]", "hexdigest()[:20]", "R-C06-DENY-FORMAT", "first half of the digest")
+T("D05b", "C06", RS, "hexdigest()[20:]", "hexdigest()[-20:]", "last 20 digits written as [-20:]")
+F("D06", "C06", RS, "      keystr = \"%s:%s\" % (keytype, n_hash)", "      keystr = \"%s-%s\" % (keytype, n_hash)", "R-C06-DENY-FORMAT", "separator changed on one side")
+F("D06b", "C06", RS, "      n_str = \"Modulus=%X\\n\" % n", "      n_str = \"Modulus=%x\\n\" % n", "R-C06-DENY-FORMAT", "lower-case hex in the hashed text")
+F("D06c", "C06", DS, "        if re.match(r\"^[0-9a-f]{20}$\", line):", "        if re.match(r\"^[0-9a-f]{40}$\", line):", "R-C06-DENY-FORMAT", "storage expects 40 digits")
+F("B27", "C06", E1, "      if curve.n.bit_length() < minimal_bit_length:", "      if curve.n.bit_length() <= minimal_bit_length:", "R-C06-PRED", "224-bit curves flagged")
+F("B28", "C06", EC, "    if x < 0 or x > (self.mod - 1) or y < 0 or y > (self.mod - 1):", "    if x < 0 or x > self.mod or y < 0 or y > (self.mod - 1):", "R-C06-PRED", "x = p accepted")
+T("B29", "C06", EC, "    if x < 0 or x > (self.mod - 1) or y < 0 or y > (self.mod - 1):", "    if x < 0 or x >= self.mod or y < 0 or y >= self.mod:", "range written with >=")
+F("B29b", "C06", EC, "    if self.h > 1:\n      q = self.Multiply(p, self.n)", "    if self.h > 2:\n      q = self.Multiply(p, self.n)", "R-C06-PRED", "cofactor-2 curves skip the subgroup test")
+F("B29c", "C06", EC, "      return 0 == ((x * x + self.a) * x + self.b - y * y) % self.mod", "      return 0 == ((x * x + self.a) * x - self.b - y * y) % self.mod", "R-C06-PRED", "curve equation sign")
+F("B29d", "C06", E1, "        if not curve.IsValidPublicKey(ec_util.PublicPoint(key.ec_info)):", "        if curve.IsValidPublicKey(ec_util.PublicPoint(key.ec_info)):", "R-C06-PRED", "validity inverted")
+F("B29e", "C06", RO, "    if self.roca_key_detector.IsWeak(modulus):\n      return False\n    return True", "    return True", "R-C06-PRED", "ROCA keys not excluded from the variant")
+F("B29f", "C06", RO, "      if not self._HasDiscreteLog(mod_p, self.F4, prime):\n        return False\n    return True", "      if not self._HasDiscreteLog(mod_p, self.F4, prime):\n        continue\n      return True\n    return False", "R-C06-PRED", "exists instead of for-all")
+F("B29g", "C06", RS, "      n_msb = n >> (n.bit_length() - 64)", "      n_msb = n >> (n.bit_length() - 32)", "R-C06-KEYPAIR", "table key 32 bits")
+F("B29h", "C06", RS, "        p, q = keypair_generator.Generator(seed).generate_key(n.bit_length())", "        p, q = keypair_generator.Generator(seed).generate_key(2048)", "R-C06-KEYPAIR", "regeneration with a fixed size")
+F("B29i", "C06", EC, "    paranoid_pb2.CurveType.CURVE_SECT571R1: None,\n", "", "R-C06-ENUM", "a curve id missing from the factory")
